@@ -74,6 +74,11 @@ CHECKS = {
    note="Trusted: simrt + instrumenter; the reference evaluator (selector.go) is independent code but written by the same author as the reading of the documentation; commit tap; transport stub as in C11. The pure selector algebra is input-quantified: it is exercised through the histories it filters, not fuzzed exhaustively.",
    technique=TECH+"differential against an independent reference selector evaluator over lists at four evaluation sites and over filtered watch streams derived from the commit-tap log",
    ref="DESIGN.md §7 C14"),
+ "C15": dict(level="exploration",
+   text="Seeded search over write histories before, during and after runtime start, aggregated-watch batchings (a harness state wrapper coalesces batches over a random window), reader timings and schedules, with type A served from the runtime read cache: every cached Get/List (with label/id selectors) of external readers - started before the runtime so that they block across the bootstrap - must equal the selector-filtered store contents at SOME commit position between runtime start and the read's return (no partial bootstrap view, no state that never existed), a reader's successive views never go back, at quiescence cached == uncached for every selector and every probe controller's last cached observation is current (a notification never overtakes its cache update), and teardown-bound contexts obtained through the cache are cancelled iff the resource was torn down, removed or absent.",
+   note="Trusted: simrt + instrumenter; commit tap; reference selector evaluator; the batch-coalescing wrapper is harness code producing legal re-batchings. The white-box in-package cache sequence test mentioned in DESIGN was not built (the black-box oracle proved sufficient for the seeded changes). Sampling only.",
+   technique=TECH+"each cached read matched against the set of historical store states from the commit-tap log; quiescence-time cached/uncached differential",
+   ref="DESIGN.md §7 C15"),
  "C16": dict(level="exploration",
    text="Seeded search over finite fault scripts and schedules: controllers erroring or panicking at Run start, at the first reconcile, after one healthy cycle or between StartTrackingOutputs and CleanupOutputs; run hooks failing at once or after two healthy virtual minutes; pkg/task tasks failing and panicking; queue items following outcome scripts; a tiny history that makes the runtime's own watch overrun; cancellation at a random virtual instant while controllers write. Oracles: Run keeps running under controller faults, every failed unit is restarted and (controllers) reconciles again, healthy controllers stay current at every quiescent point while others fail, restart delays after >=5 consecutive failures exceed every first-failure delay of the same run and reset after a healthy cycle, the whole system converges after the last fault; on a watch failure Run returns that error and nothing reconciles afterwards; after cancellation Run returns, the task table is empty (no goroutine, watch or hook left) and the commit tap shows no write by a runtime task after the return.",
    note="Trusted: simrt + instrumenter; controller/hook/task bodies are harness code following the scripts; backoff jitter is real (seeded). Backoff oracles compare delays observed in the same run, not library constants. Sampling only.",
